@@ -154,6 +154,13 @@ class SimplifySpecifiers(Contract):
     def raises(self, a):
         return [(ValueError, z3.BoolVal(True))]
 
+    def opaque_calls(self):
+        # The model identifies the version *text* of a specifier with its position in the version order, so
+        # Version(text) is that position itself.  Consequence (stated in the evidence): this contract cannot tell a
+        # comparison of texts from a comparison of versions -- that is what SimplifyNative's multi-digit family
+        # decides on the real objects (it found the text comparison repaired in /repo).
+        return {V.Version: lambda I, a, k, node=None: a[0]}
+
     def ensures(self, a, r):
         sp = a.spec.e
         if not isinstance(r, ResultSet):
@@ -361,28 +368,33 @@ class SimplifyNative(Bounded):
     reason = 'cross-check of the deductive contract against the real verspec objects (and of "unsatisfiable => rejected", which the pointwise contract does not carry)'
     VERS = ['1.0', '1.5', '2.0']
     PROBES = ['0.5', '1.0', '1.2', '1.5', '1.7', '2.0', '2.5']
+    # components with more than one digit: the order of versions is not the order of their spellings
+    VERS2 = ['1.9', '1.10', '2.0']
+    PROBES2 = ['1.8', '1.9', '1.9.5', '1.10', '1.11', '2.0', '2.1']
     OPS = ['==', '!=', '>', '>=', '<', '<=']
 
     def native_inputs(self, case, alphabet, maxlen, rng, extra=0):
-        atoms = [o + v for o in self.OPS for v in self.VERS]
-        for n in (1, 2, 3):
-            for t in _it.combinations(atoms, n):
-                yield {'spec': ','.join(t)}
+        for vers in (self.VERS, self.VERS2):
+            atoms = [o + v for o in self.OPS for v in vers]
+            for n in (1, 2, 3):
+                for t in _it.combinations(atoms, n):
+                    yield {'spec': ','.join(t)}
 
     def native_check(self, case, raw):
         from bfg9000.versioning import simplify_specifiers, SpecifierSet, Version
         spec = SpecifierSet(raw['spec'])
-        want = {p: Version(p) in spec for p in self.PROBES}
+        probes = self.PROBES2 if '1.9' in raw['spec'] or '1.10' in raw['spec'] else self.PROBES
+        want = {p: Version(p) in spec for p in probes}
         try:
             res = simplify_specifiers(spec)
         except ValueError:
             if any(want.values()):
                 return self.fail(case, raw, 'satisfiable_set_rejected', accepted=[p for p, b in want.items() if b])
             return True
-        got = {p: Version(p) in res for p in self.PROBES}
+        got = {p: Version(p) in res for p in probes}
         if got != want:
             return self.fail(case, raw, 'result_accepts_exactly_the_versions_all_specifiers_accept', result=str(res),
-                             differs=[p for p in self.PROBES if got[p] != want[p]])
+                             differs=[p for p in probes if got[p] != want[p]])
         if not any(want.values()):
             return self.fail(case, raw, 'unsatisfiable_set_not_rejected', result=str(res))
         return True
